@@ -488,3 +488,59 @@ func init() {
 	})
 	assumptions["C09"] = []string{"steps count basic blocks of github.com/woodsbury/jmespath/... only: time spent inside the standard library or decimal128 is visible through the allocation meter and the (inconclusive-only) wall-clock watchdog, not through the step clock", "liveness is restated as bounded progress: a call must finish within its step budget"}
 }
+
+// ---- towers: one construct wrapped around itself n times
+//
+// The size parameter of these families is the nesting depth.  A construct that evaluates its operand
+// twice (once to look at it, once "properly") costs 2^n: at n = 100 that exceeds any budget, while
+// every result is still correct.  Wrappers: a selector applied to a parenthesised operand, unary
+// builtins, single-element multi-selects indexed again, lets, each over a string, null, an array and
+// an object subject.
+func tower(n int, base string, wrap func(string) string) string {
+	t := base
+	for i := 0; i < n; i++ {
+		t = wrap(t)
+	}
+	return t
+}
+
+func init() {
+	type w struct {
+		name string
+		f    func(string) string
+	}
+	wraps := []w{
+		{"paren-slice-step", func(x string) string { return "(" + x + ")[::-1]" }},
+		{"paren-slice-step2", func(x string) string { return "(" + x + ")[::2]" }},
+		{"paren-slice", func(x string) string { return "(" + x + ")[0:]" }},
+		{"paren-index", func(x string) string { return "[(" + x + ")][0]" }},
+		{"paren-field", func(x string) string { return "{k: (" + x + ")}.k" }},
+		{"paren-star", func(x string) string { return "(" + x + ")[*]" }},
+		{"paren-filter", func(x string) string { return "(" + x + ")[?`true`]" }},
+		{"paren-flatten", func(x string) string { return "[(" + x + ")][]" }},
+		{"not_null-slice-step", func(x string) string { return "not_null(" + x + "[::2])" }},
+		{"not_null", func(x string) string { return "not_null(" + x + ")" }},
+		{"to_array-index", func(x string) string { return "to_array(" + x + ")[0]" }},
+		{"reverse", func(x string) string { return "reverse(" + x + ")" }},
+		{"let", func(x string) string { return "(let $t = " + x + " in $t)" }},
+		{"pipe", func(x string) string { return "(" + x + " | @)" }},
+		{"or", func(x string) string { return "(" + x + " || `null`)" }},
+		{"and", func(x string) string { return "(`true` && " + x + ")" }},
+		{"not-not", func(x string) string { return "!(!(" + x + "))" }},
+		{"paren-slice-step-call", func(x string) string { return "to_array(" + x + "[::-1])[0]" }},
+		{"map", func(x string) string { return "map(&@, [" + x + "])[0]" }},
+		{"sort_by", func(x string) string { return "sort_by([" + x + "], &`1`)[0]" }},
+	}
+	subjects := []struct{ name, text string }{{"string", "'abcdef'"}, {"null", "missing"}, {"array", "a"}, {"object", "o"}, {"doc-string", "s"}}
+	for _, wr := range wraps {
+		for _, sj := range subjects {
+			wr, sj := wr, sj
+			c09Scale = append(c09Scale, scaleFamily{"tower-" + wr.name + "-" + sj.name, func(n int) (string, any) {
+				if n > 2000 {
+					n = 2000 // (the parser's nesting limit is 10000 levels; several wrappers nest twice per level)
+				}
+				return tower(n, sj.text, wr.f), map[string]any{"a": []any{json.Number("3"), json.Number("1"), json.Number("2")}, "o": map[string]any{"k": "v"}, "s": "héllo wörld"}
+			}})
+		}
+	}
+}
